@@ -93,6 +93,14 @@ def oracle : List Sexp → Sexp
              | none => app "ok" [])
           | _, _, _ => app "ok" []
         | _, _, _ => app "ok" []
+      -- a division is refused as DivisionByZero only for a ZERO divisor (0, 0.0, -0.0, false): a tiny or subnormal divisor divides
+      | [.atom "binop", .atom "div", a, b], .list [.atom "err", .atom "DivisionByZero"] =>
+        match (Prim.dec a : Option (Prim Float)), (Prim.dec b : Option (Prim Float)) with
+        | some pa, some pb =>
+          (match asF pa, asF pb with
+           | some x, some y => if y == 0.0 then app "ok" [] else app "violation" [.atom "division-by-nonzero-refused", encNum x, encNum y]
+           | _, _ => app "ok" [])
+        | _, _ => app "ok" []
       | [.atom "unop", .atom "neg", a], .list [.atom "ok", r] =>
         match (Prim.dec a : Option (Prim Float)), (Prim.dec r : Option (Prim Float)) with
         | some pa, some (.integer v) =>
